@@ -123,16 +123,22 @@ def theorem_statements(prop_file):
         out.append(re.sub(r'\s+', ' ', m.group(1)).strip())
     return out
 
-def coq_assumptions(prop_id):
-    """Print Assumptions of every Theorem of Properties/<id>.v, run now.
+def coq_assumptions(prop_id, extra_files=()):
+    """Print Assumptions of every Theorem of Properties/<id>.v (and of the extra property files), run now.
     Returns (ok, {theorem: [axioms]}, raw)"""
     pf = "theories/Properties/%s.v" % prop_id
     names = theorem_names(pf)
+    extra_mods = []
+    for f in extra_files:
+        names += theorem_names(f)
+        extra_mods.append(f[len("theories/"):-2].replace("/", "."))
     d = os.path.join(BUILD, "assume")
     os.makedirs(d, exist_ok=True)
     vf = os.path.join(d, "Assume_%s.v" % prop_id)
     with open(vf, "w") as f:
         f.write("From Garr Require Import Properties.%s.\n" % prop_id)
+        for m in extra_mods:
+            f.write("From Garr Require Import %s.\n" % m)
         for n in names:
             f.write('Goal True. idtac "@@THEOREM %s". exact I. Qed.\nPrint Assumptions %s.\n' % (n, n))
     rc, out = sh(["coqc", "-Q", os.path.join(COQ, "theories"), "Garr", vf], cwd=d, timeout=600)
